@@ -127,6 +127,14 @@ func RandomManifest(t *rapid.T, root string, o ManifestOpts) *Schema {
 			nf := rapid.IntRange(0, 5).Draw(t, "nf")
 			seen := map[string]bool{}
 			// includes: earlier records only (acyclic), at most 2, no field clashes (fields get a per-record suffix when included)
+			embedded := map[string]bool{} // names of (transitively) embedded structs
+			var embeddedNames func(id Ident, into map[string]bool)
+			embeddedNames = func(id Ident, into map[string]bool) {
+				into[id.Name] = true
+				for _, i := range s.Lookup(id).Includes {
+					embeddedNames(i, into)
+				}
+			}
 			for _, o := range s.Types {
 				if o.Kind == "record" && len(nm.Includes) < 2 && rapid.IntRange(0, 5).Draw(t, "inc") == 0 {
 					clash := false
@@ -135,10 +143,28 @@ func RandomManifest(t *rapid.T, root string, o ManifestOpts) *Schema {
 							clash = true
 						}
 					}
+					// embedded struct names must be distinct from each other and from every exported field name: known
+					// finding KF-C12-include-field-clash (witnesses in the C12 harness), kept out of the grammar
+					mine := map[string]bool{}
+					embeddedNames(o.Ident, mine)
+					for n := range mine {
+						if embedded[n] || seen[n] {
+							clash = true
+						}
+					}
+					for _, f := range s.AllFields(o) {
+						if embedded[Exported(f.Name)] || mine[Exported(f.Name)] {
+							clash = true
+						}
+					}
 					if !clash {
 						nm.Includes = append(nm.Includes, o.Ident)
+						for n := range mine {
+							embedded[n] = true
+						}
 						for _, f := range s.AllFields(o) {
 							seen[f.Name] = true
+							seen[Exported(f.Name)] = true
 						}
 					}
 				}
@@ -157,16 +183,7 @@ func RandomManifest(t *rapid.T, root string, o ManifestOpts) *Schema {
 				}
 				// a field whose exported name equals the name of an included record collides with the embedded struct field:
 				// known finding KF-C12-include-field-clash (witness in the C12 harness), kept out of the grammar
-				clash := false
-				var incs []Ident
-				incs = append(incs, nm.Includes...)
-				for len(incs) > 0 {
-					if incs[0].Name == Exported(name) {
-						clash = true
-					}
-					incs = append(incs[1:], s.Lookup(incs[0]).Includes...)
-				}
-				if clash {
+				if embedded[Exported(name)] {
 					continue
 				}
 				seen[name] = true
